@@ -4,7 +4,7 @@
    External code enters as the hypotheses written out in each statement:
      inflate (deflate b) = Some b   (Go compress/gzip),
      json_norm (encoding/json Unmarshal then Marshal of a command body). *)
-From TX Require Import Model.Framing Model.WsConn Model.FramingLock Proofs.Framing Proofs.WsConn Proofs.FramingLock Proofs.SideC01 Gen.C01.
+From TX Require Import Model.Framing Model.WsConn Model.FramingLock Model.FramingDuplex Proofs.Framing Proofs.WsConn Proofs.FramingLock Proofs.FramingDuplex Proofs.SideC01 Gen.C01.
 
 (* (1)+(2) every list of writer-accepted packets, written with any per-packet compression choice,
    is read back as exactly those packets (type byte with the writer's flag, identical body, consumed
@@ -96,6 +96,29 @@ Theorem C01_unlocked_writer_interleaves_refuted :
     wire (fst s) = [34; 3; 0; 0; 0; 1; 7]%N /\ g_done (fst s) = [[3%N]; [34; 0; 0; 0; 1; 7]%N].
 Proof. exact unlocked_writer_interleaves_refuted. Qed.
 Print Assumptions C01_unlocked_writer_interleaves_refuted.
+
+(* full-duplex use of one processor: ReadPacket calls and the transport writes of WritePacket calls interleave in
+   ANY order (true = one ReadPacket, false = one transport write).  The reader returns exactly the parse of the
+   incoming bytes (as many results as it made calls) and the wire is exactly the writer's chunks, in order: neither
+   direction can disturb the other.  (The obligation on the real code — no scratch state shared between the
+   directions — is what the gated duplex cases of the correspondence run exercise.) *)
+Theorem C01_full_duplex_any_schedule :
+  forall inflate json_norm (incoming : list byte) (cuts : list nat) (chunks : list (list byte)) (sched : list bool),
+  let s := drun current_variant MaxPacketBodySize inflate json_norm sched (dr_init (mkrd incoming cuts), dw_init chunks) in
+  (count_b true sched <= S (length incoming))%nat ->
+  dr_res (fst s) = firstn (count_b true sched) (parse_stream current_variant MaxPacketBodySize inflate json_norm incoming)
+  /\ dw_wire (snd s) = concat (firstn (count_b false sched) chunks).
+Proof. exact (duplex_any_schedule MaxPacketBodySize). Qed.
+Print Assumptions C01_full_duplex_any_schedule.
+
+(* ... and a writer whose pending bytes live in scratch memory a ReadPacket may take does put other bytes on the wire *)
+Theorem C01_shared_scratch_refuted :
+  exists sched chunks,
+    dw_wire (snd (drun_shared current_variant 16%N (fun _ => None) (fun b => Some b) sched (dr_init (mkrd [3%N] []), dw_init chunks)))
+    <> concat chunks
+    /\ count_b false sched = length chunks.
+Proof. exact shared_scratch_refuted. Qed.
+Print Assumptions C01_shared_scratch_refuted.
 
 (* the two defects of the pinned tree (repaired by fix: commits), kept as refuted statements *)
 Theorem C01_pinned_single_len_read_refuted :
